@@ -212,7 +212,10 @@ func (c *e2eCtx) newScenario(i int, r *rand.Rand, o proj.Opts, mkcfg func(r *ran
 		return nil, err
 	}
 	s.cfg = mkcfg(r, s.oldRev)
-	if err := proj.WriteConfig(s.dir, s.cfg); err != nil {
+	// one configuration in four is written by `goat init` itself from flags (the way users get it)
+	if i%4 == 1 && proj.InitConfig(c.goat, s.dir, s.cfg) {
+		c.count("config:written-by-goat-init")
+	} else if err := proj.WriteConfig(s.dir, s.cfg); err != nil {
 		return nil, err
 	}
 	s.desc = cfgDesc(s.cfg)
